@@ -31,6 +31,7 @@ func main() {
 	list := flag.Bool("list", false, "list properties and rules")
 	manifest := flag.Bool("manifest", false, "write MANIFEST.json from the registry")
 	variant := flag.String("variant", "", "internal: run the property on one seeded in-memory variant and print obligation statuses as JSON")
+	describe := flag.Bool("describe", false, "run every rule set on the repository and print the rule inventory (Markdown) used as DESIGN.md appendix D")
 	noEvidence := flag.Bool("no-evidence", false, "do not write the evidence file")
 	flag.Parse()
 	// Many GC/worker threads faulting pages concurrently is pathologically slow on this
@@ -42,6 +43,10 @@ func main() {
 
 	if *manifest {
 		writeManifest(*verif)
+		return
+	}
+	if *describe {
+		describeAll(*repo)
 		return
 	}
 	if *list {
@@ -239,5 +244,58 @@ func writeManifest(verif string) {
 	if err := os.WriteFile(filepath.Join(verif, "MANIFEST.json"), append(b, '\n'), 0o644); err != nil {
 		fmt.Fprintln(os.Stderr, err)
 		os.Exit(2)
+	}
+}
+
+// describeAll prints, per property, the rules as they are discharged on the current tree.
+func describeAll(repo string) {
+	p, err := core.Load(core.LoadOptions{Dir: repo})
+	if err != nil {
+		fmt.Fprintln(os.Stderr, "load:", err)
+		os.Exit(2)
+	}
+	for _, id := range props.IDs() {
+		d := props.Registry[id]
+		r := core.NewReport(id)
+		d.Run(p, r)
+		fmt.Printf("### %s — %s\n\n", id, d.Title)
+		fmt.Printf("*Technique*: %s\n\n*Decides*: %s\n\n*Does not decide*: %s\n\n", d.Technique, d.Explanation, d.NotCovered)
+		type agg struct {
+			n     int
+			descs []string
+			ex    []string
+		}
+		rules := map[string]*agg{}
+		var order []string
+		for _, o := range r.Obligations {
+			a := rules[o.Rule]
+			if a == nil {
+				a = &agg{}
+				rules[o.Rule] = a
+				order = append(order, o.Rule)
+			}
+			a.n++
+			seen := false
+			for _, x := range a.descs {
+				if x == o.Desc {
+					seen = true
+				}
+			}
+			if !seen && len(a.descs) < 40 {
+				a.descs = append(a.descs, o.Desc)
+				a.ex = append(a.ex, o.Construct)
+			}
+		}
+		sort.Strings(order)
+		fmt.Printf("| rule | obligations on this tree | what each obligation requires (first construct it is discharged on) |\n|---|---|---|\n")
+		for _, k := range order {
+			a := rules[k]
+			var parts []string
+			for i, dsc := range a.descs {
+				parts = append(parts, fmt.Sprintf("%s (`%s`)", strings.ReplaceAll(dsc, "|", "\\|"), strings.ReplaceAll(a.ex[i], "|", "\\|")))
+			}
+			fmt.Printf("| %s | %d | %s |\n", k, a.n, strings.Join(parts, "; "))
+		}
+		fmt.Println()
 	}
 }
